@@ -1,6 +1,10 @@
 package genql
 
-import verif "github.com/vedadiyan/genql/zz_verif"
+import (
+	"math"
+
+	verif "github.com/vedadiyan/genql/zz_verif"
+)
 
 // tryReader calls f and reports a panic instead of propagating it.
 func tryCall(f func() (any, error)) (v any, err error, panicked bool) {
@@ -29,7 +33,7 @@ func numArray(n int, label string) []any {
 func H_C09_index() {
 	n := verif.Choose("len", 4)
 	arr := numArray(n, "x")
-	i := verif.IntRange("i", 0, 1<<31-1)
+	i := verif.IntRange("i", 0, math.MaxInt64)
 	v, err, pan := tryCall(func() (any, error) { return SelectMany(arr, []*IndexSelector{NewIndex(i)}) })
 	verif.Assert(!pan, "no-panic")
 	if pan {
@@ -47,8 +51,8 @@ func H_C09_index() {
 func H_C09_range() {
 	n := verif.Choose("len", 4)
 	arr := numArray(n, "x")
-	lo := verif.IntRange("lo", -1, 1<<31-1)
-	hi := verif.IntRange("hi", -1, 1<<31-1)
+	lo := verif.IntRange("lo", -1, math.MaxInt64)
+	hi := verif.IntRange("hi", -1, math.MaxInt64)
 	v, err, pan := tryCall(func() (any, error) {
 		return SelectMany(arr, []*IndexSelector{NewIndex([2]int{lo, hi})})
 	})
@@ -86,8 +90,8 @@ func H_C09_dims() {
 		lens[k] = verif.Choose("inner", 3)
 		outer[k] = numArray(lens[k], "x")
 	}
-	i := verif.IntRange("i", 0, 1<<31-1)
-	j := verif.IntRange("j", 0, 1<<31-1)
+	i := verif.IntRange("i", 0, math.MaxInt64)
+	j := verif.IntRange("j", 0, math.MaxInt64)
 	var dims []*IndexSelector
 	switch form {
 	case 0, 3:
